@@ -924,6 +924,17 @@ func (x *Exec) instrs(s *State, env map[ssa.Value]*Val, fr *Frame, b *ssa.BasicB
 			return
 		case *ssa.Panic:
 			// a reachable explicit panic
+			if fr.isTop && x.con != nil && len(x.con.Unreachable) > 0 && x.disc == nil {
+				// `//@ unreachable panic <k> label`: the k-th explicit panic of the function (source order) must be
+				// unreachable under the preconditions (acceptance clauses for functions that report rejection by panicking)
+				if cl, ok := x.con.Unreachable[panicOrdinal(fr.fn, in)]; ok {
+					var props []string
+					if len(cl.Props) > 0 {
+						props = cl.Props
+					}
+					x.oblige(s, "unreachable", cl.Label, "false", props)
+				}
+			}
 			if fr.isTop && x.con != nil && x.con.NoPanic {
 				x.oblige(s, "nopanic", "explicit_panic", "false", nil)
 			} else if !fr.isTop && x.con != nil && x.con.NoPanic {
@@ -1067,4 +1078,23 @@ func (x *Exec) storeTerm(s *State, p *Ptr, term string) {
 	old := s.objs[p.Obj]
 	nt := x.updTerm(s, m.T, old, p.Path, term)
 	s.objs[p.Obj] = x.name(s, "o"+fmt.Sprint(p.Obj), m.Sort, nt)
+}
+
+// panicOrdinal: index of an explicit panic instruction among the explicit panics of fn in source order
+func panicOrdinal(fn *ssa.Function, p *ssa.Panic) int {
+	var ps []*ssa.Panic
+	for _, b := range fn.Blocks {
+		for _, in := range b.Instrs {
+			if q, ok := in.(*ssa.Panic); ok {
+				ps = append(ps, q)
+			}
+		}
+	}
+	sort.SliceStable(ps, func(i, j int) bool { return ps[i].Pos() < ps[j].Pos() })
+	for i, q := range ps {
+		if q == p {
+			return i
+		}
+	}
+	return -1
 }
